@@ -14,7 +14,12 @@
 //                         detached (must refuse with kNotInitialized and tell its own handler) and is attached to a fresh holder
 //          --pass2 1      Builder/Compiler: a second emitter gets ONLY the lines that failed, then the probe, and is finalized: its code
 //                         must equal a fresh emitter's (failed calls leave nothing that changes later output)
-//          --iso N        Compiler: up to N accepted lines that mention a virtual-range id run alone in a fresh function that is
+//          --settings N   "settings events after attach": right after every attach, and at random points of the call stream (one case in N,
+//                         side random stream --settings-seed), a burst of set_logger(on/off) on the CodeHolder and on the emitter,
+//                         set_error_handler on the CodeHolder (off/on, or a foreign handler when the emitter owns one), and
+//                         clear_diagnostic_options + add_diagnostic_options (with other events in between) in random order; the state the
+//                         oracles rely on (handler in charge, validation) is the same before and after a burst
+//          --iso N        Builder/Compiler, x86-32: an accepted line that asks for a REX prefix runs alone, finalize must refuse it;  Compiler: up to N accepted lines that mention a virtual-range id run alone in a fresh function that is
 //                         finalized; a non-existent virtual id must make finalize fail and report exactly once
 #include <asmjit/core.h>
 #include <asmjit/x86.h>
@@ -101,6 +106,10 @@ struct Ctx {
   BaseBuilder* bb = nullptr;
   uint32_t real_virt[kRealVirt] = {};
   uint32_t real_virt_count = 0;
+  StringLogger hlog, elog;
+  Handler foreign;                         // a handler that is never in charge (set on the holder while the emitter owns one)
+  size_t settings_events = 0, settings_bursts = 0;
+  bool holder_logger_on = false, emitter_logger_on = false;
 
   Ctx(const Environment& env_, const std::string& emitter_, const std::string& handler_, bool own_, bool validate_)
     : env(env_), emitter(emitter_), handler(handler_), own(own_), validate(validate_) {
@@ -115,6 +124,7 @@ struct Ctx {
   void attach_fresh() {
     code.reset(new CodeHolder());
     code->init(env);
+    holder_logger_on = false;
     if (!own && handler != "none") code->set_error_handler(&eh);
     code->attach(e);
     if (emitter == "asm") { if (validate) a.add_diagnostic_options(DiagnosticOptions::kValidateAssembler); }
@@ -127,6 +137,38 @@ struct Ctx {
       real_virt_count = kRealVirt;
     }
     eh.calls = 0;
+  }
+
+  DiagnosticOptions diag() const {
+    if (emitter == "asm") return validate ? DiagnosticOptions::kValidateAssembler : DiagnosticOptions::kNone;
+    return DiagnosticOptions::kValidateIntermediate;
+  }
+
+  // A burst of settings events on the attached emitter. Every event ends in CodeHolder / BaseEmitter recomputing what it caches
+  // (BaseEmitter::on_settings_updated, the forced instruction options); handler in charge and validation are restored at the end.
+  void settings_burst(Rng& r) {
+    settings_bursts++;
+    size_t n = 2 + r.below(5);
+    bool diag_off = false;
+    for (size_t i = 0; i < n; i++) {
+      settings_events++;
+      switch (r.below(diag_off ? 5 : 4)) {
+        case 0: holder_logger_on = r.below(3) == 0; code->set_logger(holder_logger_on ? &hlog : nullptr); break;
+        case 1: emitter_logger_on = r.below(3) == 0; e->set_logger(emitter_logger_on ? &elog : nullptr); break;
+        case 2:
+          if (own || handler == "none") code->set_error_handler(r.below(2) ? &foreign : nullptr);     // never in charge: the emitter owns one / nobody listens
+          else { code->set_error_handler(nullptr); code->set_error_handler(&eh); }
+          break;
+        case 3:
+          if (!diag_off) { e->clear_diagnostic_options(diag()); diag_off = uint32_t(diag()) != 0; if (!diag_off) e->add_diagnostic_options(diag()); }
+          else { e->add_diagnostic_options(diag()); diag_off = false; }
+          break;
+        default: e->add_diagnostic_options(diag()); diag_off = false; break;
+      }
+    }
+    if (diag_off) e->add_diagnostic_options(diag());
+    if (handler == "none" && !own) code->set_error_handler(nullptr);
+    hlog.clear(); elog.clear();
   }
 
   bool is_real_virt(uint32_t id) const { for (uint32_t i = 0; i < real_virt_count; i++) if (real_virt[i] == id) return true; return false; }
@@ -144,6 +186,7 @@ struct Case {
   // ... in an operand the validator looks at: a register / address register of a defined type, not behind a gap in the operand list
   bool lead_ghost = false, lead_invalid_id = false;
   bool gap = false;
+  bool rex32 = false;                        // x86-32 and the options ask for a REX prefix (rex() or one of REX.B/X/R/W): never encodable
 };
 
 static void note_id(Ctx& X, Case& C, uint32_t id, bool defined_type = false) {
@@ -212,6 +255,7 @@ static void parse_case(Ctx& X, const std::string& line, Case& C) {
     else C.bad = true;
   }
   C.opts = (uint32_t)strtoul(opts_s.c_str(), nullptr, 16);
+  C.rex32 = X.env.arch() == Arch::kX86 && (C.opts & 0x4F000000u) != 0;
   if (extra_s != "-") {
     std::vector<std::string> p = split(extra_s, ':');
     uint32_t id = (uint32_t)strtoul(p[1].c_str(), nullptr, 0);
@@ -262,9 +306,12 @@ int main(int argc, char** argv) {
   size_t reattach = args.u64("reattach", 0);
   bool pass2 = args.u64("pass2", 0) != 0;
   size_t iso_max = args.u64("iso", 0);
+  size_t settings = args.u64("settings", 0);
+  Rng srng(args.u64("settings-seed", 1) * 0x9E3779B97F4A7C15ull + 77);
 
   Environment env(arch);
   Ctx X(env, emitter, handler, own, validate);
+  if (settings) X.settings_burst(srng);
   BaseEmitter* e = X.e;
   BaseBuilder* bb = X.bb;
   x86::Assembler& a = X.a;
@@ -282,10 +329,13 @@ int main(int argc, char** argv) {
 
   while (std::getline(*is, line)) {
     if (line.empty()) continue;
+    if (settings && srng.below(settings) == 0) X.settings_burst(srng);
     CodeHolder& code = *X.code;
     Case C;
     parse_case(X, line, C);
     arm_oneshot(X, C, ncase);
+    if (X.hlog.data_size() > (1u << 20)) X.hlog.clear();
+    if (X.elog.data_size() > (1u << 20)) X.elog.clear();
 
     size_t off0 = bb ? 0 : a.offset();
     uint64_t hash0 = bb ? 0 : fnv1a(a.buffer_data(), a.offset());
@@ -303,17 +353,18 @@ int main(int argc, char** argv) {
     bool oneshot_left = clear_oneshot(e);
     bool cursor_moved = bb && err != Error::kOk && bb->cursor() != cursor0;
 
-    char head[400];
-    snprintf(head, sizeof head, "{\"id\":%s,\"err\":%u,\"h\":%d,\"threw\":%d,\"oneshot\":%d,\"db\":%ld,\"dl\":%ld,\"df\":%ld,\"dr\":%ld,\"ds\":%ld,\"dn\":%ld,\"pc\":%d,\"cur\":%d,\"virt\":%d,\"bytes\":\"",
+    char head[480];
+    snprintf(head, sizeof head, "{\"id\":%s,\"err\":%u,\"h\":%d,\"threw\":%d,\"oneshot\":%d,\"db\":%ld,\"dl\":%ld,\"df\":%ld,\"dr\":%ld,\"ds\":%ld,\"dn\":%ld,\"pc\":%d,\"cur\":%d,\"virt\":%d,\"ev\":%zu,\"fh\":%d,\"bytes\":\"",
              C.id.c_str(), unsigned(err), X.eh.calls, int(threw), int(oneshot_left), long(off1) - long(off0),
              long(code.label_count()) - long(labels0), long(code.unresolved_fixup_count()) - long(fix0),
              long(code.reloc_entries().size()) - long(rel0), long(code.section_count()) - long(sec0),
-             bb ? long(count_nodes(bb)) - long(nodes0) : 0L, int(prefix_changed), int(cursor_moved), C.ghost_virt ? 2 : C.virt ? 1 : 0);
+             bb ? long(count_nodes(bb)) - long(nodes0) : 0L, int(prefix_changed), int(cursor_moved), C.ghost_virt ? 2 : C.virt ? 1 : 0, X.settings_events, X.foreign.calls);
+    X.foreign.calls = 0;
     out += head;
     if (!bb && off1 > off0) out += hexstr(a.buffer_data() + off0, off1 - off0);
     out += "\"}\n";
     if (err != Error::kOk && !C.bad && failed_lines.size() < 6000) failed_lines.push_back({ncase, line});
-    if (err == Error::kOk && C.virt && emitter == "compiler" && iso_lines.size() < iso_max) iso_lines.push_back({ncase, line});
+    if (err == Error::kOk && bb && ((C.virt && emitter == "compiler") || C.rex32) && iso_lines.size() < iso_max) iso_lines.push_back({ncase, line});
     ncase++;
 
     if (!bb && ncase % probe_every == 0) {
@@ -343,6 +394,7 @@ int main(int argc, char** argv) {
       }
       if (want && handler == "throw" && X.eh.calls && !t2) detached_viol.push_back("detached-call-exception-swallowed|the own handler threw but emit returned normally");
       X.attach_fresh();
+      if (settings) X.settings_burst(srng);
     }
     if (out.size() > (1 << 20)) { fwrite(out.data(), 1, out.size(), stdout); out.clear(); }
   }
@@ -407,32 +459,55 @@ int main(int argc, char** argv) {
     if (p2_fresh_fin == 0) p2_fresh = text_hex(*Z.code);
   }
 
-  // ---- isolated finalize (Compiler): one accepted line that mentions a virtual-range id, alone in a fresh function
+  // ---- isolated finalize (Builder / Compiler): one accepted line alone in a fresh emitter that is finalized.
+  //      Compiler, virtual-range id: a non-existent id must make finalize fail.  x86-32, REX request: finalize either refuses it or the
+  //      request is dropped - the code must then equal that of a twin that got the same line WITHOUT the REX option bits.
   std::string iso_json = "[";
   size_t iso_runs = 0, iso_ghost = 0, iso_refused = 0;
-  for (auto& il : iso_lines) {
+  size_t iso_rex32 = 0, iso_rex32_refused = 0, iso_rex32_dropped = 0;
+  auto iso_run = [&](const std::pair<size_t, std::string>& il, uint32_t drop_opts, bool with_events, Case& C, Error& err, Error& fe, bool& t, int& calls, std::string& text) {
     Ctx Y(env, emitter, handler, own, validate);
-    Y.c.mov(x86::Gp::make_r32(Y.real_virt[0]), 1);
-    Case C; parse_case(Y, il.second, C);
+    if (with_events) Y.settings_burst(srng);
+    if (emitter == "compiler") Y.c.mov(x86::Gp::make_r32(Y.real_virt[0]), 1);
+    else Y.b.mov(x86::eax, 1);
+    parse_case(Y, il.second, C);
+    C.opts &= ~drop_opts;
     arm_oneshot(Y, C, il.first);
-    bool t = false;
-    Error err = guarded_emit(Y, C, t);
+    err = guarded_emit(Y, C, t);
     clear_oneshot(Y.e);
-    if (err != Error::kOk) continue;                  // (context dependent: not accepted this time)
-    Y.c.add(x86::Gp::make_r32(Y.real_virt[0]), x86::Gp::make_r32(Y.real_virt[0]));
-    Y.c.end_func();
+    if (err != Error::kOk) return;                  // (context dependent: not accepted this time)
+    if (emitter == "compiler") { Y.c.add(x86::Gp::make_r32(Y.real_virt[0]), x86::Gp::make_r32(Y.real_virt[0])); Y.c.end_func(); }
+    else Y.b.add(x86::eax, x86::eax);
     Y.eh.calls = 0;
-    Error fe = guarded_call([&] { return Y.c.finalize(); }, t);
+    fe = guarded_call([&] { return Y.e->finalize(); }, t);
+    calls = Y.eh.calls;
+    if (fe == Error::kOk) text = text_hex(*Y.code);
+  };
+  for (auto& il : iso_lines) {
+    Case C; Error err = Error::kOk, fe = Error::kOk; bool t = false; int calls = 0; std::string text;
+    iso_run(il, 0, settings && srng.below(2), C, err, fe, t, calls, text);
+    if (err != Error::kOk) continue;
     iso_runs++;
     if (C.lead_ghost) iso_ghost++;
     if (fe != Error::kOk) iso_refused++;
     const char* problem = nullptr;
-    if (C.lead_ghost && fe == Error::kOk) problem = C.lead_invalid_id ? "never-refused:id-0xffffffff" : "never-refused:virtual-id";
-    else if (fe != Error::kOk && handler != "none" && Y.eh.calls == 0) problem = "finalize-handler-not-called";
-    else if (fe != Error::kOk && handler != "none" && Y.eh.calls != 1) problem = "finalize-handler-called-more-than-once";
+    if (C.rex32) {
+      iso_rex32++;
+      if (fe != Error::kOk) iso_rex32_refused++;
+      else {
+        Case C2; Error err2 = Error::kOk, fe2 = Error::kOk; bool t2 = false; int calls2 = 0; std::string text2;
+        iso_run(il, 0x4F000000u, false, C2, err2, fe2, t2, calls2, text2);
+        if (err2 == Error::kOk && fe2 == Error::kOk && text2 != text) problem = "never-refused:rex-in-32-bit-mode";
+        else iso_rex32_dropped++;
+      }
+    }
+    if (problem) {}
+    else if (C.lead_ghost && fe == Error::kOk) problem = C.lead_invalid_id ? "never-refused:id-0xffffffff" : "never-refused:virtual-id";
+    else if (fe != Error::kOk && handler != "none" && calls == 0) problem = "finalize-handler-not-called";
+    else if (fe != Error::kOk && handler != "none" && calls != 1) problem = "finalize-handler-called-more-than-once";
     else if (fe != Error::kOk && handler == "throw" && !t) problem = "finalize-exception-swallowed";
     if (problem) {
-      char b2[200]; snprintf(b2, sizeof b2, "%s{\"case\":%zu,\"problem\":\"%s\",\"fin\":%u,\"h\":%d,\"ghost\":%d}", iso_json.size() > 1 ? "," : "", il.first, problem, unsigned(fe), Y.eh.calls, int(C.lead_ghost));
+      char b2[200]; snprintf(b2, sizeof b2, "%s{\"case\":%zu,\"problem\":\"%s\",\"fin\":%u,\"h\":%d,\"ghost\":%d}", iso_json.size() > 1 ? "," : "", il.first, problem, unsigned(fe), calls, int(C.lead_ghost));
       iso_json += b2;
     }
   }
@@ -445,10 +520,10 @@ int main(int argc, char** argv) {
   printf("{\"final\":1,\"used\":%s,\"fresh\":%s,\"mid_probes\":%zu,\"mid_ok\":%d,\"finalize\":%u,\"tail\":%s,"
          "\"reattaches\":%zu,\"detached_calls\":%zu,\"detached_viol\":%s,"
          "\"p2_lines\":%zu,\"p2_accepted\":%zu,\"p2_nodes_left\":%zu,\"p2_fin\":%d,\"p2_fresh_fin\":%d,\"p2_used\":%s,\"p2_fresh\":%s,"
-         "\"iso_runs\":%zu,\"iso_ghost\":%zu,\"iso_refused\":%zu,\"iso_viol\":%s}\n",
+         "\"iso_runs\":%zu,\"iso_ghost\":%zu,\"iso_rex32\":%zu,\"iso_rex32_refused\":%zu,\"iso_rex32_dropped\":%zu,\"iso_refused\":%zu,\"settings_events\":%zu,\"settings_bursts\":%zu,\"iso_viol\":%s}\n",
          jstr(used).c_str(), jstr(fresh).c_str(), probe_bytes.size(), int(mid_ok), unsigned(fin), jstr(tail).c_str(),
          reattaches, detached_calls, dv.c_str(),
          p2_lines, p2_accepted, p2_nodes_left, p2_fin, p2_fresh_fin, jstr(p2_used).c_str(), jstr(p2_fresh).c_str(),
-         iso_runs, iso_ghost, iso_refused, iso_json.c_str());
+         iso_runs, iso_ghost, iso_rex32, iso_rex32_refused, iso_rex32_dropped, iso_refused, X.settings_events, X.settings_bursts, iso_json.c_str());
   return 0;
 }
